@@ -385,7 +385,8 @@ class Interp:
                 pn = _field_name(v.ty, p) if isinstance(v.ty, TyRef) else p
                 if fty is not None and fty.s == "bool":
                     return Sym("%s.%s" % (v.label, pn))
-                return Top("%s.%s" % (v.label, pn), fty)
+                v = Top("%s.%s" % (v.label, pn), fty)
+                continue
             else:
                 return Top("proj")
         return v
